@@ -197,7 +197,7 @@ theorem ps39 : parseOpL (p2shCode h).length (p2shCode h) 39 = .ok ⟨0xc0, 1, []
 /-- **`vm.Verify` of the P2SH program** for a redeem script whose child run is known -/
 theorem p2sh_verify (ctx : Context Bytes) (hcode : ctx.code = p2shCode h) (hv : ctx.vmVersion = 1)
     (hs3 : ∀ x, (ctx.sha3 x).length = 32) (G : Int) (K : Nat) (childOk : Bytes → List Bytes → Bool)
-    (hchild : ∀ script rest L, ctx.arguments.reverse = script :: rest →
+    (hchild : ∀ script rest L, ctx.arguments.reverse = script :: rest → ctx.sha3 script = h →
       G - stackCost List.length ctx.stateData - 3 * stackCost List.length ctx.arguments - 800 ≤ L → 0 ≤ L →
       ∃ k g f' er, k ≤ K ∧ FSteps ctx k ⟨script, 0, 0, L, 0, rest, [], 1, false⟩ g ∧ FFinal ctx g f' er ∧
         (er.isNone && !falseResult valueMem () f') = childOk script rest)
@@ -257,7 +257,7 @@ theorem p2sh_verify (ctx : Context Bytes) (hcode : ctx.code = p2shCode h) (hv : 
           ⟨p2shCode h, 39, 39, R, D, [] :: script :: [] :: rest, ctx.stateData.reverse, 0, expansionReserved ctx⟩ ∧
           G - stackCost List.length ctx.stateData - 3 * stackCost List.length ctx.arguments - 544 ≤ R :=
         ⟨_, _, c7, by omega⟩
-      obtain ⟨k, g, f', er, hk, hc, hf, hok⟩ := hchild script rest (R - 256) hst (by omega) (by omega)
+      obtain ⟨k, g, f', er, hk, hc, hf, hok⟩ := hchild script rest (R - 256) hst hhash (by omega) (by omega)
       obtain ⟨fin, hrun, hver⟩ := cp_tail ctx _ _ (p2shCode h) 39 R D script rest _ _ c7' (ps39 h hh) (by rw [hl40])
         hlen (by omega) k g f' er hc hf fuel (by omega)
       refine ⟨_, verifyFuel_of_run ctx G hv (by omega) fuel fin none (by rw [hcode, hst]; exact hrun), ?_⟩
